@@ -1,20 +1,20 @@
-\* generated by mkstorecfg.py - C01: partitions x restarts
+\* generated by mkstorecfg.py - C11 thorough
 CONSTANTS
-  Kind = "bridge"
+  Kind = "l1info"
   Fixed = TRUE
-  H = 3
+  H = 2
   MaxBlocks = 3
   MaxEvents = 3
-  MaxLeaves = 6
-  MaxOps = 5
+  MaxLeaves = 4
+  MaxOps = 4
   Faults = {}
   AllowGap = FALSE
   AllowRestart = TRUE
   AllowReorg = FALSE
-  Rollups = {}
-  ExitRoots = {}
+  Rollups = {1, 2}
+  ExitRoots = {0, 1, 2}
 INIT Init
 NEXT Next
 VIEW view
-INVARIANT Inv
+INVARIANT InvL1
 CHECK_DEADLOCK FALSE
